@@ -79,7 +79,17 @@ def server_handler(mode, state):
                 else:
                     buf += io.encode_frame(*codec.encode('cb_keep_alive',
                                                          {'id': v}))
-            io.send_raw(bytes(buf))
+            if state.get('burst_gate') is not None:
+                # (sent later, when the test opens the gate)
+                def later(buf=bytes(buf)):
+                    state['burst_gate'].wait(10.0)
+                    try:
+                        io.send_raw(buf)
+                    except Exception:
+                        pass
+                threading.Thread(target=later, daemon=True).start()
+            else:
+                io.send_raw(bytes(buf))
         state['in_play'] = True
         msgs = []
         state['msgs'] = msgs
@@ -776,6 +786,148 @@ def leave_or_bulk_run(run, rng, mode, idx, variant):
             pc.safe_disconnect(conn)
 
 
+def listener_forced_write_case(run, rng, mode, idx):
+    """Delay injection between the two send() calls of one frame: a user
+    thread's forced write is paused after its first send (it holds the write
+    lock); meanwhile the server's keep-alive makes an incoming listener - the
+    networking thread - force-write a packet of its own.  Frames reach the
+    server whole: the listener's write waits for the lock."""
+    from minecraft.networking import connection as C
+    from minecraft.networking.packets import clientbound, serverbound
+    state = {'threshold': 16, 'burst': [('ka', 4242)], 'burst_gate':
+             threading.Event()}
+    server = mcserver.Server(server_handler(mode, state))
+    log = pc.EventLog()
+    rec = pc.Recorder(log)
+    conn = None
+    w = {'mode': mode, 'scenario': 'listener-forced-write', 'idx': idx}
+    in_listener, user_tid = threading.Event(), []
+    paused = []
+    try:
+        K = pc.monitored_connection_class()
+        conn = K('127.0.0.1', server.port, username='vfuser',
+                 allowed_versions={PV}, handle_exception=rec.handle_exception,
+                 handle_exit=rec.handle_exit)
+        conn.vf_log = log
+
+        def on_ka(packet):
+            in_listener.set()
+            p = serverbound.play.ChatPacket()
+            p.message = 'lw%d.from-listener' % idx
+            conn.write_packet(p, force=True)
+        conn.register_packet_listener(on_ka, clientbound.play.KeepAlivePacket)
+
+        def send_hook(kind, proxy, data):
+            if kind == 'send' and user_tid and \
+                    threading.get_ident() == user_tid[0] and not paused:
+                paused.append(1)
+                return
+            if kind == 'send' and user_tid and \
+                    threading.get_ident() == user_tid[0] and \
+                    len(paused) == 1:
+                # second send of the user's frame: give the listener time to
+                # get in between, if it can
+                paused.append(2)
+                state['burst_gate'].set()
+                in_listener.wait(2.0)
+                time.sleep(0.05)
+        conn.vf_send_hook = send_hook
+        conn.connect()
+        if not pc.wait_for(lambda: isinstance(conn.reactor, C.PlayingReactor)
+                           and state.get('in_play'), 10.0):
+            return 'never reached play state'
+        user_tid.append(threading.get_ident())
+        p = serverbound.play.ChatPacket()
+        p.message = 'lw%d.from-user-%s' % (idx, 'x' * rng.choice((1, 40, 300)))
+        conn.write_packet(p, force=True)
+        pc.wait_for(lambda: len([m for m in state.get('msgs', [])
+                                 if m.startswith('lw')]) >= 2, 3.0)
+        pc.safe_disconnect(conn)
+        pc.wait_idle(conn, 10.0)
+        server.join(10.0)
+        run.count('listener_forced_write.runs')
+        if len(paused) < 2:
+            return 'the user write was not made in two sends'
+        msgs = state.get('msgs', [])
+        alien = [m for m in msgs if not m.startswith('lw')
+                 and not m.startswith('<sb_keep_alive')]
+        errs = [e for e in server.errors if e[1] in ('frame', 'script')]
+        got = [m for m in msgs if m.startswith('lw')]
+        if errs or alien or sorted(got) != sorted(
+                [p.message, 'lw%d.from-listener' % idx]):
+            run.violation('wire/interleaved-with-listener-write', 'a listener '
+                          'of the networking thread force-wrote a packet '
+                          'while a user thread was between the two sends of '
+                          'its own frame: the server did not receive two '
+                          'whole frames', dict(w, got=[m[:40] for m in msgs],
+                                               server_errors=repr(errs[:1])))
+        return None
+    finally:
+        state['burst_gate'].set()
+        server.stop()
+        if conn is not None:
+            pc.safe_disconnect(conn)
+
+
+def reused_object_flush_case(run, rng, mode, idx):
+    """The same packet object handed to write_packet() several times (a
+    program that keeps one "tick" packet) with other packets in between, all
+    still queued when the flushing disconnect() comes: everything queued
+    before the call is sent, in order, the repeated object as often as it was
+    queued."""
+    from minecraft.networking import connection as C
+    from minecraft.networking.packets import serverbound
+    state = {'threshold': 16}
+    server = mcserver.Server(server_handler(mode, state))
+    log = pc.EventLog()
+    rec = pc.Recorder(log)
+    conn = None
+    w = {'mode': mode, 'scenario': 'reused-object-flush', 'idx': idx}
+    try:
+        K = pc.monitored_connection_class()
+        conn = K('127.0.0.1', server.port, username='vfuser',
+                 allowed_versions={PV}, handle_exception=rec.handle_exception,
+                 handle_exit=rec.handle_exit)
+        conn.vf_log = log
+        conn.connect()
+        if not pc.wait_for(lambda: isinstance(conn.reactor, C.PlayingReactor)
+                           and state.get('in_play'), 10.0):
+            return 'never reached play state'
+        tick = serverbound.play.ChatPacket()
+        tick.message = 'ro%d.tick' % idx
+        plan = []
+        for k in range(rng.randrange(2, 7)):
+            if rng.random() < 0.4:
+                plan.append(tick)
+            else:
+                p = serverbound.play.ChatPacket()
+                p.message = 'ro%d.%d' % (idx, k)
+                plan.append(p)
+        # the repeated object is also the last one queued in most cases
+        plan = [tick] + plan + ([tick] if idx % 3 else [])
+        w['queued'] = [p.message for p in plan]
+        with conn._write_lock:
+            for p in plan:
+                conn.write_packet(p)
+            conn.disconnect()
+        if not pc.wait_idle(conn, 15.0):
+            return 'watchdog: threads alive'
+        server.join(10.0)
+        got = [m for m in state.get('msgs', []) if m.startswith('ro')]
+        run.count('reused_object_flush.runs')
+        if got != w['queued']:
+            run.violation('wire/lost' if len(got) < len(plan) else
+                          'wire/order', 'packets queued before a flushing '
+                          'disconnect() - one packet object among them queued '
+                          'several times - did not all reach the server in '
+                          'order', dict(w, got=got))
+        return None
+    finally:
+        server.stop()
+        if conn is not None:
+            pc.safe_disconnect(conn)
+
+
 def listener_fails_after_send_case(run, rng, mode, idx):
     """An ordinary outgoing listener (it runs after the frame is on the wire)
     raises an ordinary exception for one packet of a queue; the user's
@@ -972,8 +1124,34 @@ def run(run):
         if err:
             run.inconclusive_because('listener fails after send %d: %s'
                                      % (i, err))
+    for i in range(60 if thorough else 9):
+        if not run.mine(i):
+            continue
+        mode = ('plain', 'compressed', 'encrypted')[i % 3]
+        err = None
+        for attempt in range(2):
+            err = reused_object_flush_case(run, rng, mode, i)
+            if err is None:
+                break
+        run.case(('reused-object-flush', i, mode))
+        if err:
+            run.inconclusive_because('reused object flush %d: %s' % (i, err))
+    for i in range(30 if thorough else 6):
+        if not run.mine(i):
+            continue
+        mode = ('plain', 'compressed', 'encrypted')[i % 3]
+        err = None
+        for attempt in range(2):
+            err = listener_forced_write_case(run, rng, mode, i)
+            if err is None:
+                break
+        run.case(('listener-forced-write', i, mode))
+        if err:
+            run.inconclusive_because('listener forced write %d: %s' % (i, err))
     run.require('bulk.runs', 2)
     run.require('listener_fails_after_send.runs', 2)
+    run.require('listener_forced_write.runs', 2)
+    run.require('reused_object_flush.runs', 2)
     run.require('stress.own_replies_checked', 5)
     run.require('leave.runs', 1)
     run.require('backpressure.runs', 2)
